@@ -537,6 +537,75 @@ fn run<'a, B: SddBuilder<'a>>(
     }
 }
 
+/// a scripted segment with WIDE decision nodes: a vtree whose left child carries `nl` variables and whose right child
+/// carries `nr`, and two disjunctions of (left literal AND right literal) terms whose conjunction is a node with up to
+/// 2^nl elements before compression (fine partitions meet fine partitions). Events use the ordinary format.
+fn wide_segment(rng: &mut Rng, nl: usize, nr: usize, out: &mut Out) {
+    let n = nl + nr;
+    let perm_l = rng.perm(nl);
+    let perm_r: Vec<usize> = rng.perm(nr).into_iter().map(|v| v + nl).collect();
+    let lab = |v: &usize| VarLabel::new_usize(*v);
+    let left = if rng.coin() { VTree::right_linear(&perm_l.iter().map(lab).collect::<Vec<_>>()) } else { VTree::even_split(&perm_l.iter().map(lab).collect::<Vec<_>>(), 2) };
+    let right = VTree::right_linear(&perm_r.iter().map(lab).collect::<Vec<_>>());
+    let vt = VTree::new_node(Box::new(left), Box::new(right));
+    rsdd::verif::set_table_capacity(*rng.pick(&[0usize, 2, 8]));
+    out.emit(json!({"ev": "reset", "n0": n, "vtree": vtree_json(&vt), "family": "wide", "compress": true, "semantic": false, "tcap": 0}));
+    let b = CompressionSddBuilder::new(vt);
+    let mut ids = SddIds::new();
+    let mut pool = vec![SddPtr::PtrTrue; K];
+    pool[1] = SddPtr::PtrFalse;
+    // emit one producing event into a chosen slot
+    fn emit<'a>(op: &str, a: Value, slot: usize, r: Result<SddPtr<'a>, String>, pool: &mut Vec<SddPtr<'a>>, ids: &mut SddIds<'a>, out: &mut Out) -> bool {
+        let mut ev = json!({"ev": op, "a": a});
+        match r {
+            Ok(p) => {
+                let mut newn = vec![];
+                let root = ids.ptr(p, &mut newn);
+                pool[slot] = p;
+                ev["res"] = json!(slot);
+                ev["root"] = root;
+                ev["nodes"] = json!(newn);
+                ev["dirty"] = json!(ids.dirty());
+                out.emit(ev);
+                true
+            }
+            Err(m) => {
+                ev["panic"] = json!(m);
+                out.emit(ev);
+                false
+            }
+        }
+    }
+    // two disjunctions of terms: term i of the first pairs left variable i with right variable i mod nr, the second uses the
+    // other half of the left variables; accumulated in slots 6 (a) and 7 (b) through scratch slots 2..5
+    let half = nl / 2;
+    for (acc, offs) in [(6usize, 0usize), (7usize, half)] {
+        for i in 0..half {
+            let (lv, rv) = (perm_l[offs + i], perm_r[i % nr]);
+            let (pl, pr) = (rng.coin(), rng.coin());
+            if !emit("var", json!([lv, pl as u8]), 2, guarded(|| b.var(VarLabel::new_usize(lv), pl)), &mut pool, &mut ids, out) { return; }
+            if !emit("var", json!([rv, pr as u8]), 3, guarded(|| b.var(VarLabel::new_usize(rv), pr)), &mut pool, &mut ids, out) { return; }
+            let (x, y) = (pool[2], pool[3]);
+            if !emit("and", json!([2, 3]), 4, guarded(|| b.and(x, y)), &mut pool, &mut ids, out) { return; }
+            if i == 0 {
+                let t = pool[4];
+                if !emit("or", json!([4, 1]), acc, guarded(|| b.or(t, SddPtr::PtrFalse)), &mut pool, &mut ids, out) { return; }
+            } else {
+                let (u, t) = (pool[acc], pool[4]);
+                if !emit("or", json!([acc, 4]), acc, guarded(|| b.or(u, t)), &mut pool, &mut ids, out) { return; }
+            }
+        }
+    }
+    let (a, c) = (pool[6], pool[7]);
+    if !emit("and", json!([6, 7]), 8, guarded(|| b.and(a, c)), &mut pool, &mut ids, out) { return; }
+    if !emit("or", json!([6, 7]), 9, guarded(|| b.or(a, c)), &mut pool, &mut ids, out) { return; }
+    let (x, y) = (pool[8], pool[9]);
+    if !emit("xor", json!([8, 9]), 10, guarded(|| b.xor(x, y)), &mut pool, &mut ids, out) { return; }
+    // the same conjunction reached along another route must be the same pointer (canon map of the specification)
+    let (x, y) = (pool[7], pool[6]);
+    emit("and", json!([7, 6]), 11, guarded(|| b.and(x, y)), &mut pool, &mut ids, out);
+}
+
 pub fn record(args: &Args) {
     let seed = args.num("seed", 1);
     let segs = args.num("segments", 4) as usize;
@@ -546,6 +615,15 @@ pub fn record(args: &Args) {
     let mut out = Out::new(&args.str("out", "-"));
     let mut rng = Rng::new(seed ^ 0x5dd);
     out.emit(json!({"ev": "init", "kind": "sdd", "nmax": nmax, "k": K, "mode": mode, "seed": seed}));
+    if mode == "wide" {
+        let (nl, nr) = (args.num("nl", 6) as usize, args.num("nr", 3) as usize);
+        for _ in 0..segs {
+            wide_segment(&mut rng, nl, nr, &mut out);
+        }
+        rsdd::verif::set_table_capacity(0);
+        out.flush();
+        return;
+    }
     for _ in 0..segs {
         let mut n = rng.range(nmax.saturating_sub(2).max(2), nmax);
         let (mut vt, family) = pick_vtree(&mut rng, n);
